@@ -1,6 +1,7 @@
 """C15 - the encrypted transport delivers the exact message sequence or disconnects (structural part)."""
 from engine import *
 import provenance
+import guards
 import mutations
 import re
 
@@ -499,3 +500,4 @@ RULES = [
 RULES.append(('15.R', 'state resets: every reviewed constant write to persistent state (flag = true / false, counter = 0, pending slot = None) of a function is still made (rules/provenance.py)', lambda F: provenance.flags_for_property(F, 'C15', '15.R')))
 RULES.append(('15.P', 'panic sites: no reviewed function that parses / handles untrusted input gained an unwrap / expect / explicit panic / bounds-checked index / length-checked copy / division (rules/provenance.py; panic freedom itself is not decided)', lambda F: provenance.panics_for_property(F, 'C15', '15.P')))
 RULES.append(('15.M', 'collection mutations: every reviewed (function, stored collection, mutator class: add / remove / filter / empty / swap / order) triple is still present - an entry that is no longer removed, inserted or drained on one path (rules/mutations.py)', lambda F: mutations.for_property(F, 'C15', '15.M')))
+RULES.append(('15.G', 'guard census: no reviewed call of a workspace function and no reviewed mutation of a stored collection gained a controlling branch condition (an added `&& cond`, early return / continue, more specific match arm in front of an act); counts per call site, name free (rules/guards.py)', lambda F: guards.for_property(F, 'C15', '15.G')))
